@@ -11,6 +11,7 @@ open Qlibc Qlibc.Conf
     inif <sep> <mainpath> [<path>=<content> ...]   ->  ok <n> <name>=<value> ... | null
     ac <flags> <defcb> <doc> [<opt> ...]   ->  add <k> ret <n> <line|-> <msg|-> cbs <m> <cb> ...
     acp <pathlen> <flags> <defcb> <doc> [<opt> ...]   the same (the path is not part of the result line)
+    acpipe … / inifp …                     the document / the main file is read through a pipe: same result
     fread <nbytes|-> <content>             ->  ok <n> <data> <terminator> | null
 -/
 namespace Driver.Conf
@@ -107,6 +108,8 @@ def step (_ : Unit) (ws : List String) : Unit × String :=
     | "inif" :: sep :: main :: files => runInif sep main files
     | "ac" :: flags :: defcb :: doc :: opts => runAc flags defcb doc opts
     | "acp" :: _ :: flags :: defcb :: doc :: opts => runAc flags defcb doc opts
+    | "acpipe" :: flags :: defcb :: doc :: opts => runAc flags defcb doc opts      -- the same bytes, read through a pipe
+    | "inifp" :: sep :: main :: files => runInif sep main files                    -- the main file is a pipe
     | "fread" :: nb :: content :: [] => runFread nb content
     | _ => "bad-op"
   ((), out)
